@@ -1,6 +1,7 @@
 import RtenVerif.Lemmas.SymWF
 
 /-! `simplify_canonical` keeps `WF`; `WF` on the original expression implies `Guards`. -/
+set_option linter.unusedSimpArgs false
 namespace RtenVerif.Sym
 
 section steps
@@ -63,7 +64,7 @@ theorem stepMin_wf (h : stepMin l r = some e') (hl : WF σ l) (hr : WF σ r) : W
   · simp at h; subst h; exact ⟨hl, hr, by simp, by simp⟩
 
 theorem stepBroadcast_wf (h : stepBroadcast l r = some e') (hl : WF σ l) (hr : WF σ r)
-    (hdom : ∀ x y, ev σ l = .ok x → ev σ r = .ok y → 1 ≤ x ∧ 1 ≤ y ∧ (x = y ∨ x = 1 ∨ y = 1)) :
+    (hdom : ∀ x y, ev σ l = .ok x → ev σ r = .ok y → (x = y ∨ x = 1 ∨ y = 1)) :
     WF σ e' := by
   unfold stepBroadcast at h
   split at h
@@ -203,7 +204,7 @@ theorem simpC_full {A : Arith} (hA : Exact A) (σ : Env) :
         · exact ⟨stepMax_sound h hv', stepMax_wf h hlw hrw⟩
         · exact ⟨stepMin_sound h hv', stepMin_wf h hlw hrw⟩
         · have hdom : ∀ x' y', ev σ l = .ok x' → ev σ r = .ok y' →
-              1 ≤ x' ∧ 1 ≤ y' ∧ (x' = y' ∨ x' = 1 ∨ y' = 1) := by
+              (x' = y' ∨ x' = 1 ∨ y' = 1) := by
             intro x' y' hx' hy'
             rw [hl'] at hx'; rw [hr'] at hy'
             simp at hx' hy'; subst hx' hy'
@@ -251,7 +252,7 @@ def wfB (σ : Env) : SymExpr → Bool
         | _ => true) &&
       (o != .broadcast ||
         match ev σ a, ev σ b with
-        | .ok x, .ok y => decide (1 ≤ x) && decide (1 ≤ y) && (x == y || x == 1 || y == 1)
+        | .ok x, .ok y => (x == y || x == 1 || y == 1)
         | _, _ => true)
   | .neg a => wfB σ a
   | _ => true
@@ -277,7 +278,7 @@ theorem wfB_sound (σ : Env) : ∀ e : SymExpr, wfB σ e = true → WF σ e := b
       rcases hB with hB | hB
       · simp at hB
       · rw [hx, hy] at hB
-        simp only [Bool.and_eq_true, Bool.or_eq_true, decide_eq_true_eq, beq_iff_eq] at hB
-        exact ⟨hB.1.1, hB.1.2, by rcases hB.2 with (h | h) | h <;> simp [h]⟩
+        simp only [Bool.or_eq_true, beq_iff_eq] at hB
+        rcases hB with (h | h) | h <;> simp [h]
 
 end RtenVerif.Sym
